@@ -53,8 +53,9 @@ def main():
         ok &= diff(c, {k: a[k] for k in c}, "%s: 3 workers vs 16 workers" % prop)
         d = run(prop, n, 16, 0, extra=["--no-seams"])
         # without seams no fault can fire, so only the fault-free run classes of each profile are comparable
-        plain = {"C04": lambda i: i % 4 in (0, 1), "C05": lambda i: True, "C16": lambda i: i % 3 == 0}[prop]
-        keep = [k for k in a if plain(int(k))]
+        plain = {"plain-uniform", "plain-cell", "sweep-state", "ownership", "purity", "mixed", "sweep-ownership",
+                 "sweep-purity", "plain"}       # run classes into which no fault is ever injected
+        keep = [k for k in a if a[k].split(" ")[-1] in plain]
         ok &= diff({k: a[k] for k in keep}, {k: d[k] for k in keep}, "%s: seams installed vs not installed (fault-free runs)" % prop)
         print("determinism %s: %d seeds x {hashseed, worker count, seams on/off}: %s" % (prop, n, "identical" if ok else "DIFFERENT"))
     return 0 if ok else 1
